@@ -133,6 +133,8 @@ def field_roundtrip(f, v, ctx):
         x = T(f=G.unreify(v, ctx.classes))
     except Exception:  # noqa
         return None
+    if not X.stored_state_valid(x):
+        return None         # T(f=v) is accepted but its stored state is not a valid instance (normalised collision)
     kinds = deep_kinds(f, ctx)
     o = observe(x, T, False, fixpoint_only=bool(kinds & {"any", "anyj"}))
     if o["stage"] in EXCUSABLE and "anyof" in kinds:
@@ -228,6 +230,10 @@ def classify(f, v, stage, exn, ctx=None):
         # a member of ANOTHER (mix-in) enum class that compares equal to a declared member (LevelIV.OFF == 0 == RatioFN.ZERO):
         # accepted by Enum._validate through ==, stored as given -- same family as F27
         return "enumcls:holding-equal-member-of-another-enum-class"
+    if t == "enumcls" and v[0] in ("dec", "int", "flt", "bool"):
+        # a number that is == to a member of a mix-in enum (Decimal('0') == LevelIV.OFF) is accepted by Enum._validate and
+        # stored as given: not a member, so it has no .value/.name to serialize -- same family as F27 / F27b
+        return "enumcls:holding-equal-value-that-is-not-a-member"
     if t == "enumlit" and v[0] == "dec":
         return "enumlit:holding-Decimal"
     return "shape=" + G.shape(f) + "/value=" + v[0]
@@ -604,6 +610,12 @@ def judge(rep, stream, ctx, cases, modelled=True):
     for case in cases:
         x = case["x"]
         c = case["ast"]
+        if not X.stored_state_valid(x):
+            # not a valid instance (normalised collision: constraints were checked on the supplied elements, the stored
+            # converted ones violate them): outside the property's domain -- counted, not judged
+            rep.stat(stream, "excluded:stored-state-rejected-by-its-own-declaration(normalised-collision)")
+            obs.append({"compact": case["compact"], "stage": None, "exn": None, "excluded": "normalised-collision"})
+            continue
         kinds = class_kinds(c, ctx)
         o = observe(x, ctx.classes[c["name"]], case["compact"], fixpoint_only=bool(kinds & {"any", "anyj"}))
         obs.append(o)
@@ -646,6 +658,14 @@ def judge(rep, stream, ctx, cases, modelled=True):
     return obs
 
 
+def judged_world(rep, stream, ctx, cases):
+    """(stream, ctx, cases, observations) for the correspondence: the instances excluded from the property's domain
+    (stored state rejected by its own declaration) were not run and are left out."""
+    obs = judge(rep, stream, ctx, cases)
+    keep = [i for i, o in enumerate(obs) if o.get("excluded") != "normalised-collision"]
+    return stream, ctx, [cases[i] for i in keep], [obs[i] for i in keep]
+
+
 def measure(rep, stream, x, ctx, kinds):
     """Input distribution of the classes of inputs the property singles out (written to the evidence file)."""
     import enum as _enum
@@ -681,9 +701,9 @@ def run(rep, tier):
     proofs_ok, model_ok = core.standard_proof_obligations(rep, "C05", ["theories/Check/C05chk.vo"])
     worlds = []          # (stream, ctx, cases, obs) of the worlds inside the Coq model
     ctx, cases = build_cases(rnd, tier)
-    worlds.append(("roundtrip", ctx, cases, judge(rep, "roundtrip", ctx, cases)))
+    worlds.append(judged_world(rep, "roundtrip", ctx, cases))
     for li, (lctx, lcases) in enumerate(lattice_worlds(False)):
-        worlds.append(("lattice", lctx, lcases, judge(rep, "lattice", lctx, lcases)))
+        worlds.append(judged_world(rep, "lattice", lctx, lcases))
     for lctx, lcases in lattice_worlds(True):
         judge(rep, "lattice-serializable-leaves", lctx, lcases, modelled=False)
     ectx, ecases = build_ext_cases(rnd, tier)
